@@ -225,6 +225,21 @@ CHECKS = {
             'Workbooks written by other producers (missing r attributes, inline strings) are not generated.'),
 }
 
+# round 10: inputs of the PROCESS (same expectations as the plain run)
+PROCESS = (' Three planned shards run a second time in an interpreter started with PYTHONOPTIMIZE=1 (assert statements stripped from the library and the generated class), '
+           'two over workbooks that carry number formats (Text, percent, fixed, scientific) on numbers and formulas, hidden rows and columns, comments, hyperlinks, widths, '
+           'frozen panes, a filter, a validation and a conditional format, and the host-settings shards also under calendar.setfirstweekday(SUNDAY) - all with the expectations of the plain run.')
+R10 = {
+    'C02': ' A data-only sheet whose last rows hold only zeros and blanks, read through bare references, COUNT, MIN, COUNTBLANK, INDEX, areas and whole columns.',
+    'C03': ' Under a raised recursion limit (30000, 512 MB thread stack): rings of 257-400 cells and rings behind chains of 245-300 cells are refused in four modes, an acyclic chain of 600 cells gives its closed-form value through the whole file and two slices.',
+    'C06': ' Worksheet titles that read like source-encoding declarations (coding=...) in 40 % of the hostile whole-workbook cases.',
+    'C08': ' One class file under a real path, a symbolic link, a hard link, a relative and a dotted spelling: three versions written through one name, loaded through all, same values, the names still what they were. Positions without a row (the whole-column form) through get_cell, get_cells and set_cells.',
+    'C09': ' Histories of relative path spellings, changes of the working directory, entry cells and requests over four directories holding a same-named workbook (one through a symbolic link); oracle: a fresh parser given the same spelling in the working directory of the request.',
+    'C14': ' COLUMN of the formula\'s own cell and of cells that depend on the formula.',
+    'C16': ' Twelve nests of a rounding function directly inside a rounding function with literal digit counts over the whole grid (innermost first); amounts of up to 1e307 at 0-331 decimal positions.',
+    'C20': ' _iferror guarding 23 raisers (every built-in exception family, decimal\'s, a plain Exception, a host subclass, the class\'s own exception) and IFERROR around criteria functions with mis-sized ranges.',
+}
+
 LEVELS = {}
 PENDING_REASON = 'not claimed'
 
@@ -236,7 +251,7 @@ def main():
         if pid not in CHECKS:
             continue
         tech, text, note = CHECKS[pid]
-        text = text + EXTRA.get(pid, '')
+        text = text + EXTRA.get(pid, '') + R10.get(pid, '') + PROCESS
         checks.append({
             'property_id': pid,
             'quick_cmd': f'./check {pid} --tier quick',
